@@ -463,7 +463,9 @@ func match(pattern ast.Atom, subst *unionfind.UnionFind) (bool, *unionfind.Union
 		if !ok || name.Type != ast.NameType {
 			return false, nil, nil
 		}
-		return strings.HasPrefix(name.Symbol, pat.Symbol) && len(name.Symbol) > len(pat.Symbol), subst, nil
+		// A name has the prefix /a if it lies below /a (/a/b), not if its spelling
+		// merely starts with it (/ab): this is also how the name type /a is defined.
+		return strings.HasPrefix(name.Symbol, pat.Symbol+"/"), subst, nil
 
 	case symbols.StartsWith.Symbol:
 		if len(pattern.Args) != 2 {
